@@ -132,7 +132,7 @@ def enabled_models(pipeline: dict) -> list[tuple[str, dict]]:
     return out
 
 
-def simulate(scn: dict, overrides: Optional[dict] = None) -> dict:
+def simulate(scn: dict, overrides: Optional[dict] = None, seed: Optional[int] = None) -> dict:
     """Predict events and per-step bucket contents of one run.
 
     ``overrides``: {dotted key: value} as an observation would apply them.
@@ -170,6 +170,8 @@ def simulate(scn: dict, overrides: Optional[dict] = None) -> dict:
     events, steps, clocks = [], [], []
     pixel = np.zeros((rows, cols))
     mem: dict[str, int] = {}
+    # seeded run: the probes' draws follow the legacy generator seeded once for the whole run
+    rs = np.random.RandomState(seed) if seed is not None else None
     for i in range(len(times)):
         clk = clock_for(times, start, i)
         state: dict[str, Any] = {"photon": None, "charge": np.zeros((rows, cols)), "signal": None, "image": None}
@@ -183,7 +185,10 @@ def simulate(scn: dict, overrides: Optional[dict] = None) -> dict:
             if args.get("stateful"):
                 n = mem.get(args.get("tag", ""), 0)
                 mem[args.get("tag", "")] = n + 1
-            v = scalar_value(args, clk, fields, n, 0.0)
+            drawn = 0.0
+            if rs is not None and args.get("draws") and args.get("seed") is None:
+                drawn = float(sum(float(rs.random_sample()) for _ in range(int(args["draws"]))))
+            v = scalar_value(args, clk, fields, n, drawn)
             for b in args.get("write") or []:
                 arr = bucket_array(b, v, rows, cols, args)
                 if b in ("photon", "photon3d"):
